@@ -36,7 +36,8 @@ CopyOK(n, c) ==
   /\ Sel(c.hdrs, RevExcl) = Sel(n.hdrs, RevExcl)
   /\ c.cookies = n.cookies
   /\ c.body = n.body
-  /\ (c.cl < 0 \/ c.cl = Len(c.body))        \* SetBodyStream: a size >= 0 promises exactly that many bytes
+\* ... and its declared length (line CopyLen{cl, blen}): SetBodyStream's size >= 0 promises exactly that many bytes
+CopyLenOK(e) == e.cl < 0 \/ e.cl = e.blen
 
 \* clause 2: the copy written to a wire by hertz (http1/req.Write) and read back by net/http (hertz's writer refuses a
 \* request without Host: nothing to compare then)
